@@ -687,8 +687,15 @@ fn cmd_hist(a: &Args) {
         let mut big: Vec<Elem> = universe::fixtures(&fixroot, 1 << 30).into_iter().filter(|e| e.text.len() > 30_000).collect();
         big.sort_by_key(|e| std::cmp::Reverse(e.text.len()));
         // interleave: small, BIG, small ... so that documents are formatted before and after a big one
+        // a document larger than any fixture: the largest one three times over
+        if let Some(e) = big.first() {
+            let giant = format!("{0}\n\n{0}\n\n{0}", e.text);
+            if universe::parses(&giant) {
+                docs.insert(2.min(docs.len()), (format!("giant:{}", e.id), giant));
+            }
+        }
         for (i, e) in big.into_iter().take(3).enumerate() {
-            let pos = (3 + 5 * i).min(docs.len());
+            let pos = (4 + 5 * i).min(docs.len());
             docs.insert(pos, (e.id, e.text));
         }
     }
